@@ -4,6 +4,7 @@
 -/
 import GoImap.Model.NumSet
 import GoImap.Spec.NumSet
+import GoImap.Lemmas.NumSetMerge
 namespace GoImap.C15
 open GoImap.NumSet GoImap.NumSetSpec
 
@@ -25,5 +26,26 @@ theorem contains_star_iff (r : Range) : r.contains 0 = true ↔ r.stop = 0 := by
 
 example : Range.Valid ⟨3, 0⟩ ∧ Range.Valid ⟨0, 0⟩ ∧ Range.Valid ⟨4294967295, 4294967295⟩ := by
   simp [Range.Valid, W]
+
+/-! ### 1. `Range.merge` is the union when it succeeds, and the identity when it fails -/
+
+/-- a successful merge denotes the union of its arguments (including "*" as `q = 0`) and is
+    again a valid range -/
+theorem merge_union (s t : Range) (hs : Range.Valid s) (ht : Range.Valid t)
+    (h : (s.merge t).2 = true) :
+    (∀ q, q < W → (s.merge t).1.contains q = (s.contains q || t.contains q)) ∧
+      Range.Valid (s.merge t).1 :=
+  ⟨fun q hq => Range.merge_contains s t hs ht h q hq, Range.merge_wf s t hs ht h⟩
+
+/-- a failed merge returns its receiver unchanged (`insert` relies on this when it assigns
+    `s[i-1], merged = s[i-1].Merge(v)` unconditionally) -/
+theorem merge_fail (s t : Range) (h : (s.merge t).2 = false) : (s.merge t).1 = s :=
+  Range.merge_fail s t h
+
+example : Range.Valid ⟨1, 4294967295⟩ ∧ Range.Valid ⟨7, 0⟩ ∧
+    ((⟨1, 4294967295⟩ : Range).merge ⟨7, 0⟩) = (⟨1, 0⟩, true) := by
+  refine ⟨by simp [Range.Valid, W], by simp [Range.Valid, W], by decide⟩
+
+example : ((⟨1, 3⟩ : Range).merge ⟨5, 6⟩).2 = false := by decide
 
 end GoImap.C15
